@@ -186,9 +186,11 @@ func (m *verifMember) structurallyInvalid() bool {
 	return false
 }
 
-// replyShaped: has result or error and no method: a response object.
+// replyShaped: carries a result or error and no method name (the method key is
+// absent, null, empty or not a string): a response object.
 func (m *verifMember) replyShaped() bool {
-	return m.isObject && m.hasReplyFields() && (!m.hasM || m.mClass == 1 || m.mClass == 3)
+	wellFormedReply := m.hasR || (m.hasE && m.eClass == 0)
+	return m.isObject && wellFormedReply && (!m.hasM || m.mClass != 0)
 }
 
 func (m *verifMember) isCall() bool { return !m.structurallyInvalid() && !m.idIsNullOrAbsent() }
